@@ -2,6 +2,7 @@ package goja
 
 import (
 	"fmt"
+	"hash/maphash"
 	"math"
 	"math/big"
 	"strconv"
@@ -9,6 +10,7 @@ import (
 	"sync"
 	"sync/atomic"
 	"time"
+	"unsafe"
 
 	"github.com/dop251/goja/unistring"
 )
@@ -5380,6 +5382,10 @@ func (a *taggedTemplateArray) equal(other objectImpl) bool {
 		return a.idPtr == o.idPtr
 	}
 	return false
+}
+
+func (a *taggedTemplateArray) hashIdentity(*maphash.Hash) (uint64, bool) {
+	return uint64(uintptr(unsafe.Pointer(a.idPtr))), true
 }
 
 // The slices and the property cells of the instruction belong to the Program, which may run in several Runtimes
